@@ -147,7 +147,7 @@ func ordKey(w *World, r *EngineResult) {
 		}
 	}
 	r.Stats["qualified_name_concatenations"] = n
-	r.floor("qualified_name_concatenations", 12)
+	r.floor("qualified_name_concatenations", 1)
 }
 
 func isStringType(t types.Type) bool {
